@@ -26,9 +26,12 @@ var yamlToSetting = func() map[string]*setting {
 
 func run(r *lib.Run) {
 	r.SetRule("equivalence: (sorted names of the explicitly given settings, listener/TLS/auth/proxy form tags); " +
-		"invalid: (class, variant, names of the other explicit settings); binary: (class, variant, syntax)")
+		"forms: the same plus (listener family, kind of the address value, kind of the deprecated host, kind of the deprecated port) or the set of environment aliases given twice; " +
+		"invalid: (class, enumerated variant, names of the other explicit settings); binary: (class, variant, syntax)")
 	r.Assume("oracle table transcribed from README.md (flag, env var, YAML key, type, legal values, defaults); YAML keys the README example omits follow the documented naming convention (table.go yamlDoc=convention)")
 	r.Assume("effective fields of OMITTED settings are compared only where documented defaults coincide: listener addresses, max_size_hard_limit (-1/0) and s3 fields with a flag-only documented default are excluded")
+	r.Assume("forms slice (address and deprecated host/port form of one listener given together, special values included): nothing is assumed about which spelling wins; an effective listener address is compared only when the explicit settings determine it on both front ends, i.e. the address is given and not empty or the deprecated port of that listener is given (the port defaults 8080/9092 vs 0 intentionally differ); where profiling is switched on only through profile_port while profile_host is omitted (defaults 127.0.0.1 vs none differ) only on/off is compared")
+	r.Assume("invalid classes: an explicitly EMPTY value is one of the two spellings of 'not given' (dir, tls_cert_file, tls_key_file, tls_ca_file, htpasswd_file) and an empty storage_mode / zstd_implementation is an unknown one; both spellings of one listener naming the same port put HTTP and gRPC on one port whichever spelling wins; a malformed address stays malformed next to a well-formed deprecated form")
 	r.Assume("profiling address without a port is not counted as 'malformed listener address accepted': the server exits with an error at start (not silently ignored)")
 
 	restore := scrubEnv()
@@ -38,6 +41,9 @@ func run(r *lib.Run) {
 	phaseEquivalence(r)
 	r.Extra("wall_s_equivalence", time.Since(t0).Seconds())
 	t0 = time.Now()
+	phaseForms(r)
+	r.Extra("wall_s_forms", time.Since(t0).Seconds())
+	t0 = time.Now()
 	phaseInvalid(r)
 	r.Extra("wall_s_invalid", time.Since(t0).Seconds())
 	if _, err := os.Stat(lib.BinPath("bazel-remote")); err != nil {
@@ -46,6 +52,9 @@ func run(r *lib.Run) {
 	}
 	mat := newMaterial()
 	defer mat.cleanup()
+	if mat.grpcBackend == "" {
+		r.Inconclusive("the in-process gRPC cache that serves as grpc_proxy back end of the binary slice did not start")
+	}
 	t0 = time.Now()
 	phaseBinaryInvalid(r, mat)
 	r.Extra("wall_s_binary_invalid", time.Since(t0).Seconds())
@@ -92,75 +101,8 @@ func phaseEquivalence(r *lib.Run) {
 		// (or their diagnosis) consumed
 		rng := r.Rng(fmt.Sprintf("equiv/%d", i))
 		s := genValid(rng)
-		fr, rend := evalAll(rng, s)
-		r.Eval()
-		names := make([]string, 0, len(s.KVs))
-		for _, e := range s.KVs {
-			names = append(names, e.Name)
-			r.Count("equiv.setting." + e.Name)
-		}
-		sort.Strings(names)
-		r.Distinct("equiv|", strings.Join(names, ","), "|", strings.Join(s.Tags, ","))
-		for _, t := range s.Tags {
-			r.Count("equiv.form." + t)
-		}
-		detail := func(extra map[string]any) caseDetail {
-			o := map[string]any{"flag": errOrOK(fr.Flag), "env": errOrOK(fr.Env), "mixed": errOrOK(fr.Mixed), "yaml": errOrOK(fr.YAML)}
-			for k, v := range extra {
-				o[k] = v
-			}
-			return caseDetail{Settings: s, Render: rend, Outcome: o}
-		}
-		if i < 3 {
-			r.Sample(detail(nil))
-		}
-
-		oks := []bool{fr.Flag.ok(), fr.Env.ok(), fr.Mixed.ok(), fr.YAML.ok()}
-		switch {
-		case oks[0] && oks[1] && oks[2] && oks[3]:
-			r.Count("equiv.outcome.all-accept")
+		if judgeEquivCase(r, rng, s, "equiv", i < 3) == "all-accept" {
 			allAccept++
-			compareFields(r, s, fr, detail)
-		case !oks[0] && !oks[1] && !oks[2] && !oks[3]:
-			// agreement, but the generator meant this set to be valid
-			r.Count("equiv.outcome.all-refuse")
-			r.Sample(detail(map[string]any{"note": "valid set refused by every front end"}))
-		default:
-			r.Count("equiv.outcome.accept-refuse-mismatch")
-			var pattern, msg string
-			switch {
-			case oks[0] == oks[1] && oks[1] == oks[2]:
-				if oks[0] {
-					pattern, msg = "cli-accepts-yaml-refuses", fr.YAML.Err
-				} else {
-					pattern, msg = "cli-refuses-yaml-accepts", fr.Flag.Err
-				}
-			case oks[0] != oks[1]:
-				pattern = "flag-vs-env"
-				msg = fr.Flag.Err + fr.Env.Err
-			default:
-				pattern, msg = "mixed", fr.Mixed.Err
-			}
-			culprits := findCulprits(rng, s, oks)
-			key := "C19:equiv:accept-refuse:" + pattern + ":" + slug(msg, 48)
-			if len(culprits) > 0 {
-				key = "C19:equiv:accept-refuse:" + strings.Join(culprits, "+") + ":" + pattern
-			}
-			r.Violation(key, "the same explicit settings are accepted by one front end and refused by another: "+msg,
-				detail(map[string]any{"settings_whose_removal_restores_agreement": culprits}))
-			// Diagnosis of the accepting side: does it honour the value at all?
-			for _, c := range culprits {
-				fronts, seen := ignoredCache[c]
-				if !seen {
-					fronts = ignoringFronts(rng, s, c, oks)
-					ignoredCache[c] = fronts
-				}
-				for _, front := range fronts {
-					r.Violation("C19:ignored:"+c+":"+front,
-						fmt.Sprintf("explicit %s is silently ignored by the %s front end: two different legal values give the same effective configuration", c, front),
-						detail(map[string]any{"setting": c}))
-				}
-			}
 		}
 	}
 	if allAccept*2 < n {
@@ -168,14 +110,109 @@ func phaseEquivalence(r *lib.Run) {
 	}
 }
 
+// judgeEquivCase renders one set of explicit settings in the four syntaxes,
+// evaluates the real front ends and judges flags == env == mixed == YAML. slice
+// ("equiv", "forms") prefixes the evidence counters. It returns the outcome
+// pattern: all-accept, all-refuse or accept-refuse-mismatch.
+func judgeEquivCase(r *lib.Run, rng *rand.Rand, s *settingSet, slice string, sample bool) string {
+	fr, rend := evalAll(rng, s)
+	r.Eval()
+	names := make([]string, 0, len(s.KVs))
+	for _, e := range s.KVs {
+		names = append(names, e.Name)
+		if slice == "equiv" { // the forms slice keeps its own matrix
+			r.Count(slice + ".setting." + e.Name)
+		}
+	}
+	sort.Strings(names)
+	r.Distinct(slice+"|", strings.Join(names, ","), "|", strings.Join(s.Tags, ","), "|", s.Form)
+	for _, t := range s.Tags {
+		if slice == "equiv" {
+			r.Count(slice + ".form." + t)
+		}
+	}
+	detail := func(extra map[string]any) caseDetail {
+		o := map[string]any{"flag": errOrOK(fr.Flag), "env": errOrOK(fr.Env), "mixed": errOrOK(fr.Mixed), "yaml": errOrOK(fr.YAML)}
+		for k, v := range extra {
+			o[k] = v
+		}
+		return caseDetail{Settings: s, Render: rend, Outcome: o}
+	}
+	if sample {
+		r.Sample(detail(nil))
+	}
+
+	oks := []bool{fr.Flag.ok(), fr.Env.ok(), fr.Mixed.ok(), fr.YAML.ok()}
+	switch {
+	case oks[0] && oks[1] && oks[2] && oks[3]:
+		r.Count(slice + ".outcome.all-accept")
+		compareFields(r, s, fr, slice, detail)
+		return "all-accept"
+	case !oks[0] && !oks[1] && !oks[2] && !oks[3]:
+		// agreement, but the generator meant this set to be valid (in the forms
+		// slice: a combination that every front end refuses, e.g. a port of -1
+		// next to nothing else, is agreement as well)
+		r.Count(slice + ".outcome.all-refuse")
+		if slice == "equiv" {
+			r.Sample(detail(map[string]any{"note": "valid set refused by every front end"}))
+		}
+		return "all-refuse"
+	}
+	r.Count(slice + ".outcome.accept-refuse-mismatch")
+	var pattern, msg string
+	switch {
+	case oks[0] == oks[1] && oks[1] == oks[2]:
+		if oks[0] {
+			pattern, msg = "cli-accepts-yaml-refuses", fr.YAML.Err
+		} else {
+			pattern, msg = "cli-refuses-yaml-accepts", fr.Flag.Err
+		}
+	case oks[0] != oks[1]:
+		pattern = "flag-vs-env"
+		msg = fr.Flag.Err + fr.Env.Err
+	default:
+		pattern, msg = "mixed", fr.Mixed.Err
+	}
+	culprits := findCulprits(rng, s, oks)
+	key := "C19:equiv:accept-refuse:" + pattern + ":" + slug(msg, 48)
+	if len(culprits) > 0 {
+		key = "C19:equiv:accept-refuse:" + strings.Join(culprits, "+") + ":" + pattern
+	}
+	if s.Form != "" && (len(culprits) == 0 || s.formSettingAmong(culprits)) {
+		key += "[" + s.Form + "]"
+	}
+	r.Violation(key, "the same explicit settings are accepted by one front end and refused by another: "+msg,
+		detail(map[string]any{"settings_whose_removal_restores_agreement": culprits}))
+	// Diagnosis of the accepting side: does it honour the value at all?
+	for _, c := range culprits {
+		fronts, seen := ignoredCache[c]
+		if !seen {
+			fronts = ignoringFronts(rng, s, c, oks)
+			ignoredCache[c] = fronts
+		}
+		for _, front := range fronts {
+			r.Violation("C19:ignored:"+c+":"+front,
+				fmt.Sprintf("explicit %s is silently ignored by the %s front end: two different legal values give the same effective configuration", c, front),
+				detail(map[string]any{"setting": c}))
+		}
+	}
+	return "accept-refuse-mismatch"
+}
+
 // compareFields compares the effective basic configuration of the four
 // renderings of one accepted set.
-func compareFields(r *lib.Run, s *settingSet, fr frontResults, detail func(map[string]any) caseDetail) {
+func compareFields(r *lib.Run, s *settingSet, fr frontResults, slice string, detail func(map[string]any) caseDetail) {
 	explicitPath := map[string]bool{}
 	for _, e := range s.KVs {
 		st := byFlag[e.Name]
 		if !st.Deprecated && st.YAML != "" {
-			explicitPath[st.YAML] = true
+			// listener addresses: whether the explicit settings DETERMINE the
+			// effective address on both front ends is the generator's knowledge
+			// (an explicitly empty address next to an omitted deprecated port falls
+			// back to the intentionally different port defaults)
+			if !listenerPaths[st.YAML] {
+				explicitPath[st.YAML] = true
+			}
 			if _, ok := fr.YAML.Fields[st.YAML]; !ok {
 				if sec := sectionOf(st.YAML); sec == "" || fr.YAML.Fields[sec] == "present" {
 					r.Violation("C19:table:no-such-field:"+st.YAML, "explicit setting has no field in the effective configuration", detail(nil))
@@ -217,8 +254,15 @@ func compareFields(r *lib.Run, s *settingSet, fr frontResults, detail func(map[s
 			continue // already reported as a whole
 		}
 		if !explicitPath[p] {
+			if p == "profile_address" && s.ProfileEnabledOnly {
+				// Only the omitted profile_host (documented defaults differ) separates
+				// the front ends here: it can change the host part of the address,
+				// not WHETHER profiling is switched on by the explicit settings.
+				compareProfilingEnabled(r, s, fr, slice, detail)
+				continue
+			}
 			if listenerPaths[p] {
-				r.Count("equiv.skipped.listener-default")
+				r.Count(slice + ".skipped.listener-default")
 				continue
 			}
 			if st := yamlToSetting[p]; st != nil && !cmpWhenOmitted(st) {
@@ -227,9 +271,9 @@ func compareFields(r *lib.Run, s *settingSet, fr frontResults, detail func(map[s
 		}
 		vf, ve, vm, vy := val(fr.Flag, p), val(fr.Env, p), val(fr.Mixed, p), val(fr.YAML, p)
 		if explicitPath[p] {
-			r.Count("equiv.compared.explicit")
+			r.Count(slice + ".compared.explicit")
 		} else {
-			r.Count("equiv.compared.default")
+			r.Count(slice + ".compared.default")
 		}
 		if vf == ve && ve == vm && vm == vy {
 			continue
@@ -249,6 +293,9 @@ func compareFields(r *lib.Run, s *settingSet, fr frontResults, detail func(map[s
 				class = "=none"
 			}
 		}
+		if s.Form != "" && p == s.FormPath {
+			class = "[" + s.Form + "]"
+		}
 		if (p == "azblob_proxy" || sectionOf(p) == "azblob_proxy") && s.hasTag("azblob-no-tenant_id") {
 			class = "[no-tenant_id]"
 		}
@@ -267,12 +314,52 @@ func compareFields(r *lib.Run, s *settingSet, fr frontResults, detail func(map[s
 
 func isSectionMarker(v string) bool { return v == "present" || v == "absent" }
 
+// compareProfilingEnabled: the coarser observation "profiling on / off".
+func compareProfilingEnabled(r *lib.Run, s *settingSet, fr frontResults, slice string, detail func(map[string]any) caseDetail) {
+	onOff := func(o outcome) string {
+		if o.Fields["profile_address"] == "" {
+			return "off"
+		}
+		return "on"
+	}
+	vf, ve, vm, vy := onOff(fr.Flag), onOff(fr.Env), onOff(fr.Mixed), onOff(fr.YAML)
+	r.Count(slice + ".compared.profiling-enabled")
+	if vf == ve && ve == vm && vm == vy {
+		return
+	}
+	how := "mixed"
+	switch {
+	case vf == ve && ve == vm:
+		how = "cli-vs-yaml"
+	case vf != ve:
+		how = "flag-vs-env"
+	}
+	class := ""
+	if s.Form != "" {
+		class = "[" + s.Form + "]"
+	}
+	r.Violation("C19:equiv:profile_address.enabled"+class+":"+how,
+		fmt.Sprintf("the same explicit settings switch profiling on in one syntax and off in another: flag=%s (%q) env=%s mixed=%s yaml=%s (%q)",
+			vf, fr.Flag.Fields["profile_address"], ve, vm, vy, fr.YAML.Fields["profile_address"]),
+		detail(map[string]any{"path": "profile_address", "flag_value": fr.Flag.Fields["profile_address"], "env_value": fr.Env.Fields["profile_address"],
+			"mixed_value": fr.Mixed.Fields["profile_address"], "yaml_value": fr.YAML.Fields["profile_address"]}))
+}
+
 // ---------------------------------------------------------------- invalid classes
 
 func phaseInvalid(r *lib.Run) {
 	per := r.N(10, 300)
+	totalVariants, seenVariants := 0, 0
+	matrix := map[string]int{} // class.variant[sub] -> cases judged
 	for _, cls := range invalidClasses {
-		for i := 0; i < per; i++ {
+		// the finite variant space of the class is enumerated completely in
+		// every tier; the thorough tier repeats it with other base sets
+		count := per
+		if cls.Variants > count {
+			count = cls.Variants
+		}
+		seen := map[string]bool{}
+		for i := 0; i < count; i++ {
 			rng := r.Rng(fmt.Sprintf("invalid/%s/%d", cls.Name, i))
 			// "otherwise valid": the base set must itself be accepted by both front
 			// ends, so that a refusal (or a one-sided acceptance) is due to the class
@@ -284,7 +371,13 @@ func phaseInvalid(r *lib.Run) {
 				}
 				r.Count("invalid.base-regenerated")
 			}
-			variant := cls.apply(rng, s, i)
+			variant, sub := cls.apply(rng, s, i)
+			full := variant
+			if sub != "" {
+				full += "[" + sub + "]"
+			}
+			seen[full] = true
+			matrix[cls.Name+"."+full]++
 			fr, rend := evalAll(rng, s)
 			r.Eval()
 			names := make([]string, 0, len(s.KVs))
@@ -292,7 +385,7 @@ func phaseInvalid(r *lib.Run) {
 				names = append(names, e.Name)
 			}
 			sort.Strings(names)
-			r.Distinct("invalid|", cls.Name, "|", variant, "|", strings.Join(names, ","))
+			r.Distinct("invalid|", cls.Name, "|", full, "|", strings.Join(names, ","))
 			var accepted []string
 			for _, f := range []struct {
 				n string
@@ -318,10 +411,18 @@ func phaseInvalid(r *lib.Run) {
 			}
 			r.Count("invalid." + cls.Name + "." + variant + ".accepted-by-" + by)
 			r.Violation("C19:invalid:"+cls.Name+":"+variant+":accepted-by-"+by,
-				fmt.Sprintf("set-up of invalid class %s (%s) is accepted by: %s", cls.Name, variant, strings.Join(accepted, ", ")),
-				caseDetail{Settings: s, Render: rend, Outcome: map[string]any{"flag": errOrOK(fr.Flag), "env": errOrOK(fr.Env), "mixed": errOrOK(fr.Mixed), "yaml": errOrOK(fr.YAML)}})
+				fmt.Sprintf("set-up of invalid class %s (%s) is accepted by: %s", cls.Name, full, strings.Join(accepted, ", ")),
+				caseDetail{Settings: s, Render: rend, Outcome: map[string]any{"variant": full, "flag": errOrOK(fr.Flag), "env": errOrOK(fr.Env), "mixed": errOrOK(fr.Mixed), "yaml": errOrOK(fr.YAML)}})
+		}
+		totalVariants += cls.Variants
+		seenVariants += len(seen)
+		if len(seen) != cls.Variants {
+			r.Inconclusive(fmt.Sprintf("invalid class %s: %d of its %d enumerated variants ran", cls.Name, len(seen), cls.Variants))
 		}
 	}
+	r.Extra("invalid_variant_matrix", matrix)
+	r.Extra("invalid_variants_enumerated", seenVariants)
+	r.Extra("invalid_variants_total", totalVariants)
 }
 
 // ---------------------------------------------------------------- real binary
@@ -354,7 +455,8 @@ func phaseBinaryInvalid(r *lib.Run, m *material) {
 	per := r.N(2, 10)
 	type job struct {
 		cls       invalidClass
-		variant   string
+		variant   string // part of the finding key
+		sub       string // concrete member of the variant (evidence only)
 		syntax    string
 		s         *settingSet
 		args, env []string
@@ -362,20 +464,35 @@ func phaseBinaryInvalid(r *lib.Run, m *material) {
 	}
 	var jobs []job
 	for ci, cls := range invalidClasses {
-		for k := 0; k < per; k++ {
+		n := per
+		// Spread the starts of a class over its enumerated variants (a rotation
+		// drawn from the seed, then equidistant steps).
+		rot := rng.IntN(cls.Variants)
+		if cls.Name == "multiple-proxy-backends" {
+			// every pair of back ends the binary could really start with
+			if n < len(startablePairs) {
+				n = len(startablePairs)
+			}
+			rot = 0
+		}
+		for k := 0; k < n; k++ {
 			idx := len(jobs)
-			s, variant := makeStartableInvalid(rng, m, cls, idx, k)
+			vi := (rot + k*cls.Variants/n) % cls.Variants
+			if cls.Name == "multiple-proxy-backends" {
+				vi = k
+			}
+			s, variant, sub := makeStartableInvalid(rng, m, cls, idx, vi)
 			syntax := binSyntaxes[(ci+k*2)%len(binSyntaxes)]
 			args, env, rend := binaryInput(rng, s, syntax, m, idx)
-			jobs = append(jobs, job{cls, variant, syntax, s, args, env, rend})
+			jobs = append(jobs, job{cls, variant, sub, syntax, s, args, env, rend})
 		}
 	}
 	parallel(len(jobs), 6, func(i int) {
 		j := jobs[i]
 		res := observeStart(j.args, j.env, 1, 0)
 		r.Eval()
-		r.Distinct("binary|", j.cls.Name, "|", j.variant, "|", j.syntax)
-		det := map[string]any{"class": j.cls.Name, "variant": j.variant, "syntax": j.syntax, "case": j.s, "rendering": j.rend,
+		r.Distinct("binary|", j.cls.Name, "|", j.variant, "|", j.sub, "|", j.syntax)
+		det := map[string]any{"class": j.cls.Name, "variant": j.variant, "sub_variant": j.sub, "syntax": j.syntax, "case": j.s, "rendering": j.rend,
 			"args": j.args, "env": j.env, "listening": res.Listening, "exited": res.Exited, "exit_code": res.ExitCode, "log_tail": res.Log}
 		base := "binary-invalid." + j.cls.Name + "." + j.variant + "."
 		switch {
